@@ -66,6 +66,9 @@ structure Cfg where
   /-- `fixes/C10-dispose-instances-on-stop.diff`: `_execute_uod_command` disposes a never-initialised instance
   when `parse_args` rejects the arguments; Stop / Restart call `cancel_all_commands` again in their second phase. -/
   fixStop : Bool := true
+  /-- commands whose exec function, in its failing iteration (`failAt`), calls `set_complete()` *before* it
+  raises (e.g. a final hardware write that fails) -/
+  completeFirst : List Nat := []
 deriving Repr, DecidableEq
 
 /-- A `UodCommand` object. `iters` = number of `execute()` calls so far (`_exec_iterations + 1`). -/
@@ -333,15 +336,20 @@ def cancelOverlap (r : Req) (k : Nat) : List Req → State → State
 
 def specOf (cfg : Cfg) (k : Nat) : CmdSpec := cfg.cmds.getD k ⟨0, none⟩
 
+/-- Does this call of the exec function raise? -/
+def execFails (s : State) (c : Cmd) : Bool := (specOf s.cfg c.name).failAt == some c.iters
+
+/-- Does this call of the exec function call `set_complete()`?  (In its last iteration — or, for a command of
+`cfg.completeFirst`, in the failing one, before the exception.) -/
+def execCompletes (s : State) (c : Cmd) : Bool :=
+  if execFails s c then s.cfg.completeFirst.contains c.name
+  else (specOf s.cfg c.name).dur != 0 && decide (c.iters + 1 ≥ (specOf s.cfg c.name).dur)
+
 /-- `UodCommand.execute`: returns the new state and whether the exec function raised. -/
 def execObj (s : State) (c : Cmd) : State × Bool :=
-  let it := c.iters
-  let sp := specOf s.cfg c.name
-  let fails := sp.failAt == some it
-  let completes := !fails && sp.dur != 0 && it + 1 ≥ sp.dur
   ({ s with objs := modObj s.objs c.serial (fun o =>
-              { o with iters := it + 1, complete := o.complete || completes }),
-            events := s.events ++ [.exec c.serial c.name it] }, fails)
+              { o with iters := c.iters + 1, complete := o.complete || execCompletes s c }),
+            events := s.events ++ [.exec c.serial c.name c.iters] }, execFails s c)
 
 /-- the `except` arm of `_execute_uod_command` followed by the one of `_execute_command` -/
 def execFailed (s : State) (r : Req) (k : Nat) (ser : Nat) : State :=
